@@ -5,12 +5,15 @@ package checks
 
 import (
 	"bytes"
+	"crypto/ecdsa"
+	"crypto/elliptic"
 	"encoding/asn1"
 	"encoding/json"
 	"fmt"
 	"math/big"
 	"os"
 	"reflect"
+	"runtime"
 	"strings"
 	"sync"
 	"testing"
@@ -83,6 +86,18 @@ func c17SynthValue(typ reflect.Type, seed int) reflect.Value {
 func buildPool(sp c17Spec) (*c17Pool, error) {
 	p := &c17Pool{names: []string{P1Name, P2Name, ExtP2Name, ExtP1Name, "http://example.com/unknown", ""}}
 	p.keys = []keyPair{keyFor(icose.EdDSA, 0), keyFor(icose.EdDSA, 1), keyFor(icose.ES256, 0), keyFor(icose.ES384, 0), keyFor(icose.PS256, 0)}
+	// key OBJECTS of unusual make, shared by all goroutines like the others:
+	// the ES256 keys' points under a bare *elliptic.CurveParams (what a
+	// hand-rolled key parser produces), and under another curve object
+	for i := 0; i < 2; i++ {
+		if pk, ok := keyFor(icose.ES256, i).Pub.(*ecdsa.PublicKey); ok {
+			bare := keyFor(icose.ES256, i)
+			bare.Pub = &ecdsa.PublicKey{Curve: pk.Curve.Params(), X: new(big.Int).Set(pk.X), Y: new(big.Int).Set(pk.Y)}
+			other := keyFor(icose.ES256, i)
+			other.Pub = &ecdsa.PublicKey{Curve: elliptic.P384(), X: new(big.Int).Set(pk.X), Y: new(big.Int).Set(pk.Y)}
+			p.keys = append(p.keys, bare, other)
+		}
+	}
 	for i, m := range sp.Models {
 		// shared claims in three construction routes
 		switch i % 3 {
@@ -256,7 +271,7 @@ type c17Op struct {
 	A, B int
 }
 
-var c17Kinds = []string{"ev-verify-all", "ev-verify-all", "claims-read-all", "dec-dup", "dec-dup", "dec-val-long", "dec-val-long", "reuse", "reuse", "ext-dec-cbor", "ext-dec-json", "ext-bad", "ext-bad", "synth", "synth", "new", "dec-cbor", "dec-json", "dec-cose", "validate", "getter", "getters", "enc-cbor", "enc-json", "venc-cbor", "venc-json",
+var c17Kinds = []string{"dec-mutate", "ev-verify-all", "ev-verify-all", "claims-read-all", "dec-dup", "dec-dup", "dec-val-long", "dec-val-long", "reuse", "reuse", "ext-dec-cbor", "ext-dec-json", "ext-bad", "ext-bad", "synth", "synth", "new", "dec-cbor", "dec-json", "dec-cose", "validate", "getter", "getters", "enc-cbor", "enc-json", "venc-cbor", "venc-json",
 	"ev-json", "ev-verify", "ev-ids", "sign", "vsign", "setters", "serialize", "populate"}
 
 func idx(n, k int) int { return ((k % n) + n) % n }
@@ -378,6 +393,27 @@ func runOp(p *c17Pool, o c17Op) string {
 		want, _ := psatoken.EncodeClaimsToCBOR(c)
 		return fmt.Sprintf("payload-equal=%v verifies=%v self-verifies=%v", bytes.Equal(parts.Payload, want),
 			icose.Verify(k.Alg, k.Pub, parts.Protected, parts.Payload, parts.Signature), ev.Verify(k.Pub) == nil)
+	case "dec-mutate":
+		// decode a token (the same bytes other goroutines decode at the same
+		// moment), then change the PRIVATE result through its setters and
+		// read it back: what was decoded belongs to this goroutine alone
+		i := idx(len(p.coseBuf), o.A)
+		ev, err := psatoken.DecodeEvidenceFromCOSE(p.coseBuf[i])
+		if err != nil {
+			return "err"
+		}
+		id := int32(1000*o.A + 37*o.B + 1)
+		r := ""
+		for k := int32(0); k < 3; k++ {
+			if ev.Claims.SetClientID(id+k) != nil {
+				return "setter failed"
+			}
+			runtime.Gosched()
+			got, gerr := ev.Claims.GetClientID()
+			r += fmt.Sprintf("%d/%v;", got-id, gerr != nil)
+		}
+		b, _ := psatoken.EncodeClaimsToCBOR(ev.Claims)
+		return fmt.Sprintf("%s%x", r, b)
 	case "ev-verify-all":
 		// every shared Evidence, with its own key and one other: whatever a
 		// first use does to an object, some other goroutine's first use of
@@ -532,6 +568,10 @@ func TestC17_Concurrent(t *testing.T) {
 					}
 					scripts[g] = append(scripts[g], c17Op{k, rapid.IntRange(0, 7).Draw(t, "a"), rapid.IntRange(0, 9).Draw(t, "b")})
 				}
+				// every goroutine STARTS by decoding the same token (right
+				// behind the barrier, so the decodes overlap) and changing
+				// its own result
+				scripts[g] = append([]c17Op{{"dec-mutate", 0, g % 10}, {"dec-mutate", 0, (g + 3) % 10}}, scripts[g]...)
 			}
 			progSerial++
 			sp.Synth = progSerial*1000 + os.Getpid()%1000
